@@ -33,6 +33,7 @@ CONSTANTS
     CloseShortcut,  \* TRUE = Close skips the wait when the highest seq is acked (as coded at the pinned commit)
     MaxConflicts,   \* resume answered with ResumeRequestConflict at most this many times
     CancelIsTimeout,\* TRUE = a sender waiting for its ack when the run is cancelled may report an ack timeout and remove the chunk (as coded at the pinned commit)
+    NetLoss,        \* TRUE: a chunk may be written successfully into a link that dies before the broker gets it (lost in flight)
     RecordScript    \* TRUE: keep the environment projection in `script` (FALSE for liveness checking: no VIEW there)
 
 VARIABLES s, script
@@ -132,6 +133,14 @@ SendChunk(c) ==
        ELSE s' = [s EXCEPT !.toSend = @ \ {c}]    \* write error, or a sender of a finished generation: its chunk carries the old stream alias,
                                                   \* which the broker does not know on the new connection (DESIGN section 8 #14): the chunk stays stored
     /\ Quiet
+\* the write succeeds, the sender waits for the result - but the link dies before the chunk reaches the broker (lost in flight)
+SendChunkLost(c) ==
+    /\ NetLoss /\ c \in s.toSend /\ Running(s)
+    /\ s.wireOf = s.conn /\ s.alive /\ c[2] = s.gen
+    /\ s.faults < MaxFaults /\ s.cst = "idle" /\ s.cstatus = "connected"
+    /\ s' = [s EXCEPT !.toSend = @ \ {c}, !.awaiting = @ \cup {c},
+                      !.alive = FALSE, !.faults = @ + 1, !.ackQ = <<>>]
+    /\ Say([a |-> "cut"])
 
 \* ---------------------------------------------------------------- broker acks
 ChunkIdx(x) == { j \in 1..Len(x.bRecv) : x.bRecv[j][1] = "chunk" }
@@ -301,7 +310,7 @@ Next ==
     \/ \E w \in Writers : Absorb(w)
     \/ CutNeeded \/ Tick
     \/ \E f \in Flushers : FlushCall(f) \/ FlushServe(f)
-    \/ \E c \in s.toSend : SendChunk(c)
+    \/ \E c \in s.toSend : SendChunk(c) \/ SendChunkLost(c)
     \/ \E S \in SUBSET RecvdOn(s, s.conn), desc \in BOOLEAN, grant \in SUBSET (FullIdsSeen(s) \ s.bGrant) :
           (Cardinality(S) <= 1 => ~desc) /\ BAck(S, desc, grant)
     \/ RouteAck \/ ProcAlias \/ ProcResult
@@ -321,7 +330,9 @@ SysStep == \/ \E w \in Writers : Absorb(w)
 \* a cooperative broker acknowledges what it received on the current connection and has not acknowledged there yet
 \* (a retransmitted chunk is acknowledged again): every chunk the client is still waiting for
 \* (the senders that actually wait: `wait` may keep the map entry of a sender that has gone - such a result is simply dropped)
-AckAllUnacked == LET S == RecvdOn(s, s.conn) \cap ({ c[1] : c \in s.awaiting } \cup (IF s.resendCur # 0 THEN {s.resendCur} ELSE {})) IN S # {} /\ BAckFair(S)
+AckAllUnacked == LET S == RecvdOn(s, s.conn) \cap s.wait \cap (({ c[1] : c \in s.awaiting } \cup (IF s.resendCur # 0 THEN {s.resendCur} ELSE {}))
+                                                     \ { c[1] : c \in s.gotRes })      \* (not those whose result is already with the sender)
+                 IN S # {} /\ BAckFair(S)
 FairNext == Next \/ AckAllUnacked
 FairSpec == Init /\ [][FairNext]_vars /\ WF_vars(SysStep) /\ WF_vars(Redial) /\ WF_vars(ResumeOk) /\ WF_vars(AckAllUnacked)
 \* once failures have stopped, every cut chunk has reached the broker -- unless the stream was reported closed
